@@ -123,6 +123,10 @@ def run_scenario(spec):
 
             def sd(real=real_sd):
                 state["in_shutdown"] = True
+                if spec.get("slow_before_shutdown_s"):
+                    # a controller that was busy (a large final output to decode, a long scheduling step) and has not read its socket
+                    # for a while when it shuts the cluster down: every executor must still be told to stop
+                    time.sleep(spec["slow_before_shutdown_s"])
                 return real()
             b.shutdown = sd
             pre = sgraph.precompute(job)
